@@ -463,3 +463,83 @@ def m9(ctx):
     if n < 5:
         raise AnalysisError("only %d GitStore setters found" % n)
     return obs
+
+
+def write_error_obligations(ctx):
+    """A write that failed is reported as failed: in the store's write functions a handler for OSError (or wider) never
+    completes normally - every path through it raises."""
+    from .common import handler_body_nodes
+    obs = []
+    n = 0
+    WIDE = {"OSError", "IOError", "EnvironmentError", "Exception", "BaseException"}
+    for cq, m in (("xandikos.store.git.TreeGitStore", "_import_one"), ("xandikos.store.git.BareGitStore", "_import_one"),
+                  ("xandikos.store.git.GitStore", "import_one"), ("xandikos.store.vdir.VdirStore", "import_one"),
+                  ("xandikos.store.git.TreeGitStore", "delete_one"), ("xandikos.store.git.BareGitStore", "delete_one"),
+                  ("xandikos.store.vdir.VdirStore", "delete_one"), ("xandikos.store.vdir.VdirStore", "_write_metadata")):
+        f = ctx.own_method(cq, m)
+        cfg = ctx.cfg(f)
+        n += 1
+        for h in cfg.handlers:
+            if h.types is not None and not (set(h.types) & WIDE):
+                continue
+            body = {b.id for b in handler_body_nodes(cfg, h)}
+            r = cfg.reachable([x for x, l in h.entry.succ if l != "exc"], follow_exc=False)
+            leaks = [x for x in cfg.nodes if x.id in r and x.id not in body and x.kind not in ("raise_exit",)]
+            obs.append(ctx.ob(not leaks, f.qualname, where(f, h.entry), "`except %s` re-raises" % "/".join(h.types or ["<bare>"]),
+                              "no normal completion of the handler",
+                              "the `except %s` handler of %s can complete normally: an I/O error during the write is swallowed, the caller "
+                              "reports success for a value that was never stored" % ("/".join(h.types or ["<bare>"]), f.short)))
+    if n < 8:
+        raise AnalysisError("write functions not found")
+    if not obs:
+        raise AnalysisError("no wide exception handler found in the store write functions (confirmed: 1)")
+    return obs
+
+
+@rule("C15", "M11", floor=1, kind="S",
+      desc="a PROPPATCH that reports success stored the value: I/O errors during the write of .xandikos are not swallowed "
+           "(the `except OSError` of the write functions always raises), and every metadata setter reaches its "
+           "assignment and its save on every path on which a value was given")
+def m11(ctx):
+    obs = list(write_error_obligations(ctx))
+    ci = ctx.P.cls("xandikos.store.config.FileBasedCollectionMetadata")
+    for nm in sorted(ci.methods):
+        if not nm.startswith("set_"):
+            continue
+        f = ctx.own_method(ci.qualname, nm)
+        cfg = ctx.cfg(f)
+        du = DefUse(cfg)
+        pv = [p for p in f.params if p not in ("self",)]
+        if not pv:
+            continue
+        p = pv[0]
+        from ..dataflow import depends_on
+        stores = [x for x in cfg.stmt_nodes() if x.kind == "stmt" and isinstance(x.ast, ast.Assign) and any(isinstance(t, ast.Subscript) for t in x.ast.targets)
+                  and p in depends_on(du, x, x.ast.value)]
+        if not stores:
+            continue
+        # block the paths on which no value was given (`p is None` / falsy) and the stores: the normal exit must then be
+        # unreachable - also through exception handlers
+        from .common import test_polarity_absent
+        blocked = [(x, m_, l) for x in stores for m_, l in x.succ if l != "exc"]
+        for t in cfg.nodes:
+            if t.kind == "test":
+                lab = test_polarity_absent(t.ast, p)
+                if not lab:
+                    # the same test on a local that holds the parameter (a helper's parameter after splicing)
+                    x = t.ast.left if isinstance(t.ast, ast.Compare) else t.ast
+                    if isinstance(x, ast.Name) and x.id != p:
+                        os_ = origins(du, t, x)
+                        if os_ and all(o.kind == "param" and o.name == p and not o.path for o in os_):
+                            import copy as _copy
+                            t2 = _copy.deepcopy(t.ast)
+                            (t2.left if isinstance(t2, ast.Compare) else t2).id = p
+                            lab = test_polarity_absent(t2, p)
+                if lab:
+                    blocked += [(t, m_, l) for m_, l in t.succ if l == lab]
+        r = cfg.reachable([cfg.entry], block_edges=blocked)
+        obs.append(ctx.ob(cfg.exit.id not in r, f.qualname, f.where, "%s stores the given value on every path" % nm,
+                          "no path to the normal exit bypasses the assignment",
+                          "FileBasedCollectionMetadata.%s can return normally without having stored the value it was given (e.g. through an "
+                          "exception handler that covers the assignment): PROPPATCH answers 200 OK and PROPFIND still shows the old value" % nm))
+    return obs
